@@ -200,8 +200,9 @@ class Controller(object):
 
 def run_schedule(app, calls, schedule, observe=None):
     """Run `calls` under `schedule` (a list of request names; names of finished
-    requests are skipped; when the list is exhausted the remaining requests
-    run to completion in name order).  observe(name, txno, kind) is called by
+    requests are skipped; when the list is exhausted the request scheduled
+    last runs to completion, then the remaining ones in name order, so that a
+    prefix adds exactly one preemption).  observe(name, txno, kind) is called by
     the controller thread after every transaction (no transaction is open).
     Returns (results, executed) where executed is the list of
     (name, txno, kind) actually performed."""
@@ -217,7 +218,13 @@ def run_schedule(app, calls, schedule, observe=None):
                 executed.append((name,) + e)
                 if observe:
                     observe(name, e[0], e[1])
-        for name in list(calls):
+        # continuation without further preemption: the request scheduled last
+        # runs to completion first, then the others in name order
+        order = list(calls)
+        if schedule and schedule[-1] in order:
+            order.remove(schedule[-1])
+            order.insert(0, schedule[-1])
+        for name in order:
             while not c.reqs[name].done:
                 e = c.step(name)
                 if e:
